@@ -3,6 +3,7 @@ package main
 import (
 	"fmt"
 	"go/types"
+	"sort"
 	"strings"
 
 	"golang.org/x/tools/go/ssa"
@@ -318,6 +319,23 @@ func checkIntrospectDispatch(c *Ctx, rule string) {
 			}
 		}
 	}
+	// every configured validator is consulted: a later validator may know that a token an earlier
+	// (stateless) one accepts has been revoked; "first acceptance wins" reports it active
+	okAll, nAll := true, 0
+	var wAll *Path
+	for _, p := range ex.Paths {
+		if p.Kind != "return" || p.Classify() != ExitSuccess {
+			continue
+		}
+		if evs := p.Calls(".IntrospectToken"); len(evs) > 0 {
+			nAll++
+			hs := evs[len(evs)-1].Recv
+			if hs == nil || hs.Op != "idx" || len(hs.Args) != 2 || !p.LoopExhausted(nil, hs.Args[0]) {
+				okAll, wAll = false, p
+			}
+		}
+	}
+	c.Check(okAll && nAll > 0, rule, role, fn, "all-validators-consulted", "a success exit of Fosite.IntrospectToken is reached only after every configured validator was invoked", "success is reachable with the validator loop left early", wAll)
 	c.Check(okT && nT > 0, rule, role, fn, "validators-see-the-raw-token", "every validator is handed exactly the token string Fosite.IntrospectToken received", whyT, wT)
 }
 
@@ -1013,4 +1031,161 @@ func checkOneTransport(c *Ctx, rule string) {
 		}
 	}
 	c.Check(ok && n >= 2, rule, role, fn, "one-transport", "the credentials handed to verification are the Basic-header pair or the body pair, never a mixture", why, w)
+}
+
+// Typed claims win over free-form extras. JWTClaims.ToMap / IDTokenClaims.ToMap
+// render the claims a token carries: the registered claims (sub, iss, aud, exp,
+// scp/scope, nonce, at_hash, c_hash …) come from typed fields the handlers fill
+// from the grant; Extra is application-supplied. The rendering starts from a
+// copy of Extra and then writes or deletes every registered key, so the typed
+// value always wins. If the extras are copied in afterwards, an "aud" or "scp"
+// entry in Extra replaces what was granted.
+func checkRegisteredClaimsWin(c *Ctx, rule, fnName string, keys ...string) {
+	const role = "claims-rendering"
+	fn := c.P.Func(fnName)
+	if fn == nil {
+		c.RoleUnmatched(rule, role, fnName)
+		return
+	}
+	ex := c.Explore(fn, ExploreConfig{}, "claims")
+	if !c.complete(ex, rule, role, fn) {
+		return
+	}
+	reg := map[string]bool{}
+	for _, k := range keys {
+		reg[k] = true
+	}
+	ok, n := true, 0
+	why := ""
+	var w *Path
+	for _, p := range ex.Paths {
+		if p.Kind != "return" || len(p.Rets) != 1 {
+			continue
+		}
+		m := p.Rets[0]
+		firstReg, lastDyn := -1, -1
+		var dyn *Event
+		for _, e := range p.Events {
+			if (e.Kind != "mapupdate" && e.Kind != "mapdelete") || len(e.Args) < 2 || e.Args[0].Key() != m.Key() {
+				continue
+			}
+			if k, isC := e.Args[1].StrConst(); isC {
+				if reg[k] && firstReg < 0 {
+					firstReg = e.Idx
+				}
+			} else {
+				lastDyn, dyn = e.Idx, e
+			}
+		}
+		if firstReg >= 0 {
+			n++
+		}
+		if firstReg >= 0 && lastDyn > firstReg {
+			ok, w = false, p
+			why = fmt.Sprintf("a key that is not a constant is written into the rendered claims at %s, after the registered claims were set: a free-form entry can replace a registered claim", c.P.Pos(dyn.Instr.Pos()))
+		}
+	}
+	c.Check(ok && n > 0, rule, role, fn, "registered-claims-win", "in the rendered claim set every registered claim is written after the free-form extras were copied in", why, w)
+}
+
+// Compose factories wire every collaborator the handler they return calls. The
+// handler structs hold their storages and strategies in interface-typed fields;
+// a factory that leaves one nil builds a handler that works until the rarely
+// taken branch that needs it (the replay branch calls
+// TokenRevocationStorage.RevokeAccessToken) and then panics instead of refusing
+// and revoking. For the struct a factory returns (not for helper sub-handlers it
+// embeds, which are used for a subset of their methods): every interface-typed
+// field that a method of that struct invokes is assigned where the struct is built.
+func checkFactoriesWireCollaborators(c *Ctx, rule string) {
+	const role = "compose-factory"
+	n := 0
+	var bad []string
+	for _, fn := range c.P.AllFuncs {
+		if fnPkgPath(fn) != pkgCompose || fn.Parent() != nil || fn.Signature.Recv() != nil || fn.Signature.Params().Len() != 3 || fn.Signature.Results().Len() != 1 || !strings.HasSuffix(fn.Name(), "Factory") {
+			continue
+		}
+		// the struct the factory returns
+		var al *ssa.Alloc
+		for _, b := range fn.Blocks {
+			for _, ins := range b.Instrs {
+				ret, ok := ins.(*ssa.Return)
+				if !ok || len(ret.Results) != 1 {
+					continue
+				}
+				v := ret.Results[0]
+				if mi, ok := v.(*ssa.MakeInterface); ok {
+					v = mi.X
+				}
+				for d := 0; d < 2; d++ {
+					if call, ok := v.(*ssa.Call); ok {
+						if cal := call.Common().StaticCallee(); cal != nil && fnPkgPath(cal) == pkgCompose && len(cal.Blocks) > 0 {
+							// a private constructor: its returned allocation
+							for _, cb := range cal.Blocks {
+								for _, ci := range cb.Instrs {
+									if cr, ok := ci.(*ssa.Return); ok && len(cr.Results) == 1 {
+										v = cr.Results[0]
+									}
+								}
+							}
+							continue
+						}
+					}
+					break
+				}
+				if a, ok := v.(*ssa.Alloc); ok {
+					al = a
+				}
+			}
+		}
+		if al == nil {
+			continue
+		}
+		st, ok := al.Type().Underlying().(*types.Pointer).Elem().Underlying().(*types.Struct)
+		named, _ := al.Type().Underlying().(*types.Pointer).Elem().(*types.Named)
+		if !ok || named == nil || named.Obj().Pkg() == nil {
+			continue
+		}
+		n++
+		set := map[int]bool{}
+		for _, r := range *al.Referrers() {
+			if fa, ok := r.(*ssa.FieldAddr); ok {
+				for _, r2 := range *fa.Referrers() {
+					if s2, ok := r2.(*ssa.Store); ok && s2.Addr == ssa.Value(fa) {
+						set[fa.Field] = true
+					}
+				}
+			}
+		}
+		used := map[int]string{}
+		for _, m := range c.P.MethodsOf(named.Obj().Pkg().Path(), named.Obj().Name()) {
+			if len(m.Params) == 0 {
+				continue
+			}
+			for _, b := range m.Blocks {
+				for _, ins := range b.Instrs {
+					ci, ok := ins.(ssa.CallInstruction)
+					if !ok || !ci.Common().IsInvoke() {
+						continue
+					}
+					if u, ok := ci.Common().Value.(*ssa.UnOp); ok {
+						if fa, ok := u.X.(*ssa.FieldAddr); ok && fa.X == ssa.Value(m.Params[0]) {
+							if _, isI := st.Field(fa.Field).Type().Underlying().(*types.Interface); isI {
+								used[fa.Field] = m.Name()
+							}
+						}
+					}
+				}
+			}
+		}
+		for i, by := range used {
+			if !set[i] {
+				bad = append(bad, fmt.Sprintf("%s returns a %s whose %s is never set although %s calls it", fn.Name(), named.Obj().Name(), st.Field(i).Name(), by))
+			}
+		}
+	}
+	if n < 6 {
+		c.RoleUnmatched(rule, role, fmt.Sprintf("at least 6 compose factories returning a handler struct; found %d", n))
+	}
+	sort.Strings(bad)
+	c.Check(len(bad) == 0, rule, role, nil, "collaborators-wired", "every interface-typed field that a method of the returned handler invokes is assigned by the factory", strings.Join(bad, "; "), nil)
 }
